@@ -356,6 +356,8 @@ def make_case(R):
                 cont = "top"
             it = {"k": "target", "tk": tk, "name": name, "cont": cont}
         items.append(it)
+    if R.random() < 0.4:
+        R.shuffle(items)  # an explicit name may come BEFORE the heading whose slug it equals
     # links
     frs = list(names)
     from_slugs = []
